@@ -825,6 +825,7 @@ func (ds *Dataset) updateDataset(newItemCount int64, entities []*Entity) error {
 }
 
 func (ds *Dataset) GetChangesWatermark() (uint64, error) {
+	// position of the next change of this dataset; 0 while its change log is empty
 	var waterMark uint64
 
 	err := ds.store.database.View(func(btxn *badger.Txn) error {
@@ -838,21 +839,25 @@ func (ds *Dataset) GetChangesWatermark() (uint64, error) {
 		iteratorOptions := badger.DefaultIteratorOptions
 		iteratorOptions.Reverse = true
 		iteratorOptions.PrefetchValues = false
-		iteratorOptions.Prefix = searchBuffer
+		// only keys of this dataset's change log are valid positions
+		iteratorOptions.Prefix = searchBuffer[:6]
 		changesIterator := txn.NewIterator(iteratorOptions)
 		defer changesIterator.Close()
 
-		changesIterator.Rewind()
-		item := changesIterator.Item()
-		k := item.Key()
+		// last key of this dataset's change log, if there is one
+		changesIterator.Seek(searchBuffer)
+		if changesIterator.Valid() {
+			item := changesIterator.Item()
+			k := item.Key()
 
-		waterMark = binary.BigEndian.Uint64(k[6:14])
+			// need to add one to point to next change in searches.
+			waterMark = binary.BigEndian.Uint64(k[6:14]) + 1
+		}
 
 		return nil
 	})
 
-	// need to add one to point to next change in searches.
-	return waterMark + 1, err
+	return waterMark, err
 }
 
 /*
